@@ -6,6 +6,7 @@
 From Coq Require Import List Bool NArith ZArith Sorting.Sorted Permutation.
 From PV Require Import Base.Str Base.Value Glob.Glob Run.RState.
 From PV Require Import Actions.Expand Actions.ExpandThm Actions.Catalogue Actions.Tree Actions.TreeThm Actions.Fast.
+From PV Require Import Actions.ExpandAlgebra Actions.CatalogueMono Actions.TreeAlgebra.
 Import ListNotations.
 
 (* FRAME.  [frame_rel may v w] (Actions/TreeThm.v): w has the same constructor as v, objects have the same keys in the
@@ -119,3 +120,366 @@ Example C10_ex_invariants_needed :
   let cat := [s "a:*"; s "a:xy"]%string in
   catalogue_ok cat = false /\ expand cat (expand cat [s "a:?"]%string) <> expand cat [s "a:?"]%string.
 Proof. vm_compute. split; [reflexivity | discriminate]. Qed.
+
+(* ================================================================================================ *)
+(* THE ALGEBRA OF THE WALK (Actions/TreeAlgebra.v, Actions/CatalogueMono.v).  Every statement: ANY catalogue, ANY tree,
+   ANY pattern lists, ANY depth.
+   [member_at p i v]: the i-th member (key, value) of the object reached from the root of v by the path p, a list of steps
+   [SMember j] (into the value of the j-th member of an object) / [SElem j] (into the j-th element of an array). *)
+
+(* THE PATH THEOREM: the result has an object exactly where the input has one, with the same members in the same
+   positions under the same keys, each value being that member's own walk *)
+Theorem C10_member_at_walk : forall cat p i v,
+  member_at p i (expand_tree cat v) =
+  option_map (fun kv => (fst kv, walk_member (expand cat) (expand_not cat) (fst kv) (snd kv))) (member_at p i v).
+Proof. intros cat. exact (member_at_walk (expand cat) (expand_not cat)). Qed.
+Print Assumptions C10_member_at_walk.
+
+(* 1. SOUND and COMPLETE at any depth: an Action element (string or list of strings) becomes the list of exactly the
+   catalogue entries matched -- as a glob, blind to ASCII letter case -- by one of the patterns written there; a NotAction
+   element the list of exactly the entries matched by none *)
+Theorem C10_expanded_sound_complete : forall cat v p i x ps,
+  action_text x = Some ps ->
+  (member_at p i v = Some (K_ACTION, x) ->
+   exists out, member_at p i (expand_tree cat v) = Some (K_ACTION, vstrs out) /\
+     forall a, In a out <-> In a cat /\ exists q, In q ps /\ glob_ci q a = true) /\
+  (member_at p i v = Some (K_NOTACTION, x) ->
+   exists out, member_at p i (expand_tree cat v) = Some (K_NOTACTION, vstrs out) /\
+     forall a, In a out <-> In a cat /\ forall q, In q ps -> glob_ci q a = false).
+Proof.
+  intros cat v p i x ps Ht.
+  exact (conj (fun Hm => action_at_sound_complete cat v p i x ps Hm Ht)
+              (fun Hm => notaction_at_sound_complete cat v p i x ps Hm Ht)).
+Qed.
+Print Assumptions C10_expanded_sound_complete.
+
+(* read from the RESULT: a list of strings under an Action / NotAction key, at any depth, is the expansion of the patterns
+   that stood at the same place of the input (nothing is invented, moved or merged) *)
+Theorem C10_expanded_origin : forall cat v p i k y out,
+  member_at p i (expand_tree cat v) = Some (k, y) -> is_action_key k = true -> action_text y = Some out ->
+  exists x ps, member_at p i v = Some (k, x) /\ action_text x = Some ps /\
+               out = if str_eqb k K_ACTION then expand cat ps else expand_not cat ps.
+Proof. exact expanded_origin. Qed.
+Print Assumptions C10_expanded_origin.
+
+(* a member that is not Action / NotAction text is simply walked, wherever it is *)
+Theorem C10_other_member_at : forall cat p i v k x,
+  member_at p i v = Some (k, x) -> is_action_key k = false \/ action_text x = None ->
+  member_at p i (expand_tree cat v) = Some (k, expand_tree cat x).
+Proof. intros cat. exact (other_at_walk (expand cat) (expand_not cat)). Qed.
+Print Assumptions C10_other_member_at.
+
+(* 2. CANONICAL FORM at any depth: strictly increasing (Python's str order), duplicate-free, made of catalogue entries,
+   no longer than the catalogue *)
+Theorem C10_expanded_canonical : forall cat v p i k y out,
+  member_at p i (expand_tree cat v) = Some (k, y) -> is_action_key k = true -> action_text y = Some out ->
+  StronglySorted str_lt out /\ NoDup out /\ incl out cat /\ List.length out <= List.length cat.
+Proof. exact expanded_canonical. Qed.
+Print Assumptions C10_expanded_canonical.
+
+Theorem C10_expansion_lengths : forall cat ps,
+  List.length (expand cat ps) <= List.length cat /\ List.length (expand_not cat ps) <= List.length cat /\
+  List.length (expand cat ps) + List.length (expand_not cat ps) = List.length (nodup_sort cat).
+Proof. intros cat ps. exact (conj (expand_length cat ps) (conj (expand_not_length cat ps) (expand_lengths_add cat ps))). Qed.
+Print Assumptions C10_expansion_lengths.
+
+(* 3. LOCALITY.  The walk distributes over the members of an object and the elements of an array ... *)
+Theorem C10_distributes : forall cat,
+  (forall d1 d2, expand_tree cat (VDict (d1 ++ d2)) =
+                 VDict (vmembers (expand_tree cat (VDict d1)) ++ vmembers (expand_tree cat (VDict d2)))) /\
+  (forall l1 l2, expand_tree cat (VList (l1 ++ l2)) =
+                 VList (velems (expand_tree cat (VList l1)) ++ velems (expand_tree cat (VList l2)))).
+Proof. intros cat. exact (conj (walk_dict_app (expand cat) (expand_not cat)) (walk_list_app (expand cat) (expand_not cat))). Qed.
+Print Assumptions C10_distributes.
+
+(* ... the result for one member / element is a function of that member alone: the same among any siblings *)
+Theorem C10_members_independent : forall cat,
+  (forall d1 k x d2,
+     expand_tree cat (VDict (d1 ++ (k, x) :: d2)) =
+     VDict (vmembers (expand_tree cat (VDict d1)) ++ (k, walk_member (expand cat) (expand_not cat) k x)
+            :: vmembers (expand_tree cat (VDict d2)))) /\
+  (forall l1 x l2,
+     expand_tree cat (VList (l1 ++ x :: l2)) =
+     VList (velems (expand_tree cat (VList l1)) ++ expand_tree cat x :: velems (expand_tree cat (VList l2)))) /\
+  (forall d i, nth_error (vmembers (expand_tree cat (VDict d))) i =
+               option_map (fun kv => (fst kv, walk_member (expand cat) (expand_not cat) (fst kv) (snd kv))) (nth_error d i)) /\
+  (forall l i, nth_error (velems (expand_tree cat (VList l))) i = option_map (expand_tree cat) (nth_error l i)).
+Proof.
+  intros cat.
+  exact (conj (walk_member_among (expand cat) (expand_not cat)) (conj (walk_elem_among (expand cat) (expand_not cat))
+        (conj (walk_nth_member (expand cat) (expand_not cat)) (walk_nth_elem (expand cat) (expand_not cat))))).
+Qed.
+Print Assumptions C10_members_independent.
+
+(* ... keys and their order, the number of members and the length of arrays are kept *)
+Theorem C10_keys_lengths_preserved : forall cat v,
+  vkeys (expand_tree cat v) = vkeys v /\
+  List.length (velems (expand_tree cat v)) = List.length (velems v) /\
+  List.length (vmembers (expand_tree cat v)) = List.length (vmembers v).
+Proof.
+  intros cat v. exact (conj (walk_keys (expand cat) (expand_not cat) v) (walk_length (expand cat) (expand_not cat) v)).
+Qed.
+Print Assumptions C10_keys_lengths_preserved.
+
+(* SHAPE: [skeleton v] is v with every Action / NotAction text replaced by null and everything else kept (a tree without
+   such text is its own skeleton).  The walk does not change it -- at any depth, for any catalogue. *)
+Theorem C10_skeleton_preserved : forall cat v, skeleton (expand_tree cat v) = skeleton v.
+Proof. intros cat v. exact (skeleton_walk (expand cat) (expand_not cat) v). Qed.
+Print Assumptions C10_skeleton_preserved.
+
+Theorem C10_skeleton_is_tight : forall v,
+  (has_action_text v = false -> skeleton v = v) /\
+  vkeys (skeleton v) = vkeys v /\ List.length (velems (skeleton v)) = List.length (velems v).
+Proof. intros v. exact (conj (skeleton_no_text v) (skeleton_keys_lengths v)). Qed.
+Print Assumptions C10_skeleton_is_tight.
+
+(* FUSION: a walk after a walk is ONE walk with the composed replacement functions (what the iteration and
+   catalogue-update statements below rest on) *)
+Theorem C10_walk_fusion : forall a n f g v,
+  walk f g (walk a n v) = walk (fun ps => f (a ps)) (fun ps => g (n ps)) v.
+Proof. exact walk_compose. Qed.
+Print Assumptions C10_walk_fusion.
+
+(* 4. CATALOGUE UPDATE.  [cat] the old catalogue, [cat'] the new one, every old entry still there.
+   MONOTONE: the expansion over the old catalogue is the expansion over the new one with the new entries left out -- for
+   Action AND for NotAction (complement within the respective catalogue); no well-formedness needed *)
+Theorem C10_catalogue_monotone : forall cat cat' ps,
+  incl cat cat' ->
+  expand cat ps = restrict cat (expand cat' ps) /\ expand_not cat ps = restrict cat (expand_not cat' ps).
+Proof. intros cat cat' ps H. exact (conj (expand_mono cat cat' ps H) (expand_not_mono cat cat' ps H)). Qed.
+Print Assumptions C10_catalogue_monotone.
+
+(* nothing returned before disappears, and whatever is new in a result is a new catalogue entry *)
+Theorem C10_catalogue_monotone_members : forall cat cat' ps,
+  incl cat cat' ->
+  (forall a, In a (expand cat ps) -> In a (expand cat' ps)) /\
+  (forall a, In a (expand cat' ps) -> ~ In a (expand cat ps) -> In a cat' /\ ~ In a cat) /\
+  (forall a, In a (expand_not cat ps) -> In a (expand_not cat' ps)) /\
+  (forall a, In a (expand_not cat' ps) -> ~ In a (expand_not cat ps) -> In a cat' /\ ~ In a cat).
+Proof. exact expand_mono_mem. Qed.
+Print Assumptions C10_catalogue_monotone_members.
+
+(* the same for whole trees: walking with the old catalogue = walking with the new one, then dropping the new entries
+   from every Action / NotAction element; and catalogues with the same entries (any order, repetitions) walk alike *)
+Theorem C10_catalogue_monotone_tree : forall cat cat' v,
+  incl cat cat' -> expand_tree cat v = walk (restrict cat) (restrict cat) (expand_tree cat' v).
+Proof. exact expand_tree_mono. Qed.
+Print Assumptions C10_catalogue_monotone_tree.
+
+Theorem C10_catalogue_same_entries : forall cat cat' v,
+  (forall a, In a cat <-> In a cat') -> expand_tree cat v = expand_tree cat' v.
+Proof. exact expand_tree_same_entries. Qed.
+Print Assumptions C10_catalogue_same_entries.
+
+(* IDEMPOTENCE SURVIVES THE UPDATE when the NEW catalogue is well-formed (nothing is asked of the old one): an Action or
+   NotAction list produced with the old catalogue is a fixed point of Action expansion with the new one; a tree expanded
+   with the old catalogue and then with the new one keeps every Action element, can differ in NotAction text only, and is
+   unchanged when it holds no NotAction text *)
+Theorem C10_fixed_point_survives_catalogue_update : forall cat cat' ps v,
+  catalogue_ok cat' = true -> incl cat cat' ->
+  expand cat' (expand cat ps) = expand cat ps /\
+  expand cat' (expand_not cat ps) = expand_not cat ps /\
+  expand_tree cat' (expand_tree cat v) = walk (expand cat) (fun qs => expand_not cat' (expand_not cat qs)) v /\
+  (has_notaction_text v = false -> expand_tree cat' (expand_tree cat v) = expand_tree cat v) /\
+  frame_rel is_notaction_key (expand_tree cat v) (expand_tree cat' (expand_tree cat v)).
+Proof.
+  intros cat cat' ps v H Hi.
+  exact (conj (proj1 (expand_fixed_after_update cat cat' ps (catalogue_ok_spec cat' H) Hi))
+        (conj (proj2 (expand_fixed_after_update cat cat' ps (catalogue_ok_spec cat' H) Hi))
+        (conj (expand_tree_after_update cat cat' v (catalogue_ok_spec cat' H) Hi)
+              (expand_tree_fixed_after_update cat cat' v (catalogue_ok_spec cat' H) Hi)))).
+Qed.
+Print Assumptions C10_fixed_point_survives_catalogue_update.
+
+(* a NotAction element expanded with the old catalogue and AGAIN with the new one holds the actions its patterns match
+   (the involution) together with every action the update added *)
+Theorem C10_notaction_after_update : forall cat cat' ps a,
+  catalogue_ok cat' = true -> incl cat cat' ->
+  (In a (expand_not cat' (expand_not cat ps)) <-> In a (expand cat ps) \/ (In a cat' /\ ~ In a cat)).
+Proof. intros cat cat' ps a H. exact (expand_not_twice_after_update cat cat' ps a (catalogue_ok_spec cat' H)). Qed.
+Print Assumptions C10_notaction_after_update.
+
+(* THE EXACT CONDITION, when only the OLD catalogue is known to be well-formed: old expansions are fixed points of the new
+   expansion, for every pattern list, IF AND ONLY IF no new entry differs from an old entry by ASCII letter case only *)
+Theorem C10_fixed_point_update_exact_condition : forall cat cat',
+  catalogue_ok cat = true -> incl cat cat' ->
+  ((forall ps, expand cat' (expand cat ps) = expand cat ps) <->
+   (forall q a, In q cat -> In a cat' -> lower a = lower q -> a = q)).
+Proof. intros cat cat' H. exact (fixed_after_update_iff cat cat' (catalogue_ok_spec cat H)). Qed.
+Print Assumptions C10_fixed_point_update_exact_condition.
+
+(* ... and it is NOT unconditional: a new entry spelled like an old one in another letter case re-expands *)
+Theorem C10_fixed_point_any_update_refuted :
+  exists cat cat' ps, catalogue_ok cat = true /\ incl cat cat' /\ expand cat' (expand cat ps) <> expand cat ps.
+Proof.
+  exists [of_string "s3:GetObject"], [of_string "s3:GetObject"; of_string "s3:getobject"], [of_string "s3:Get*"].
+  split; [vm_compute; reflexivity|]. split; [apply sub_catalogue_incl; vm_compute; reflexivity|]. vm_compute. discriminate.
+Qed.
+Print Assumptions C10_fixed_point_any_update_refuted.
+
+(* 5. ITERATION.  [C10_idempotent_tree] leaves NotAction text open; this closes it.  Twice: every Action AND every
+   NotAction element holds the plain expansion of its patterns.  Three times = once.  Period two ever after. *)
+Theorem C10_notaction_iterated : forall cat v,
+  catalogue_ok cat = true ->
+  expand_tree cat (expand_tree cat v) = walk (expand cat) (expand cat) v /\
+  expand_tree cat (expand_tree cat (expand_tree cat v)) = expand_tree cat v /\
+  (forall k, iterate (S (S (S k))) (expand_tree cat) v = iterate (S k) (expand_tree cat) v) /\
+  (forall k, iterate (S (2 * k)) (expand_tree cat) v = expand_tree cat v /\
+             iterate (S (S (2 * k))) (expand_tree cat) v = expand_tree cat (expand_tree cat v)).
+Proof.
+  intros cat v H.
+  exact (conj (expand_tree_twice_is cat v (catalogue_ok_spec cat H))
+        (conj (expand_tree_thrice cat v (catalogue_ok_spec cat H))
+        (conj (fun k => expand_tree_period cat v k (catalogue_ok_spec cat H))
+              (fun k => expand_tree_odd_even cat v k (catalogue_ok_spec cat H))))).
+Qed.
+Print Assumptions C10_notaction_iterated.
+
+Theorem C10_notaction_of_expansion : forall cat ps,
+  catalogue_ok cat = true -> expand_not cat (expand cat ps) = expand_not cat ps.
+Proof. intros cat ps H. exact (expand_not_of_expand cat ps (catalogue_ok_spec cat H)). Qed.
+Print Assumptions C10_notaction_of_expansion.
+
+(* 6. THE PATTERN ALGEBRA ON TREES.  [pats_equiv ps qs]: each pattern of either list has an equivalent ([ci_equiv]) in the
+   other -- what remains of a list when order, repetition and spelling are set aside.  [pat_rel v w]: the same tree, except
+   that an Action / NotAction member holding action text in both may hold an equivalent pattern set (a bare string counts
+   as a one-element list).  Such trees are walked to the SAME tree. *)
+Theorem C10_pattern_order_blind : forall cat v w, pat_rel v w -> expand_tree cat v = expand_tree cat w.
+Proof. exact expand_tree_pat_rel. Qed.
+Print Assumptions C10_pattern_order_blind.
+
+Theorem C10_pattern_order_blind_member : forall cat k x y ps qs d1 d2,
+  is_action_key k = true -> action_text x = Some ps -> action_text y = Some qs -> pats_equiv ps qs ->
+  walk_member (expand cat) (expand_not cat) k x = walk_member (expand cat) (expand_not cat) k y /\
+  expand_tree cat (VDict (d1 ++ (k, x) :: d2)) = expand_tree cat (VDict (d1 ++ (k, y) :: d2)).
+Proof.
+  intros cat k x y ps qs d1 d2 HK E1 E2 HE.
+  exact (conj (expand_member_pats cat k x y ps qs HK E1 E2 HE)
+              (expand_tree_pat_rel cat _ _ (pat_rel_member d1 k x y d2 ps qs HK E1 E2 HE))).
+Qed.
+Print Assumptions C10_pattern_order_blind_member.
+
+(* what makes two pattern lists equivalent: a permutation, a repetition, the same members, member-wise equivalent spellings
+   (C09_pattern_equivalences: "p**q" ~ "p*q", "p*?q" ~ "p?*q", normal form, letter case); it is an equivalence relation *)
+Theorem C10_pattern_sets : forall ps qs rs,
+  (Permutation ps qs -> pats_equiv ps qs) /\
+  pats_equiv (ps ++ ps) ps /\
+  ((forall p, In p ps <-> In p qs) -> pats_equiv ps qs) /\
+  (Forall2 ci_equiv ps qs -> pats_equiv ps qs) /\
+  pats_equiv ps ps /\ (pats_equiv ps qs -> pats_equiv qs ps) /\ (pats_equiv ps qs -> pats_equiv qs rs -> pats_equiv ps rs).
+Proof.
+  intros ps qs rs.
+  exact (conj (pats_equiv_perm ps qs) (conj (pats_equiv_dup ps) (conj (pats_equiv_same_members ps qs)
+        (conj (pats_equiv_spelling ps qs) (conj (pats_equiv_refl ps) (conj (pats_equiv_sym ps qs) (pats_equiv_trans ps qs rs))))))).
+Qed.
+Print Assumptions C10_pattern_sets.
+
+(* ---- non-vacuity: a policy inside a resource, two statements, on the small catalogue ---- *)
+Definition T1 : value :=
+  (VDict [(s "Properties", VDict [(s "PolicyDocument", VDict [(s "Statement", VList [
+     VDict [(s "Effect", VStr (s "Allow")); (s "Action", VList [VStr (s "s3:Get*"); VStr (s "IAM:*")]); (s "Resource", VStr (s "*"))];
+     VDict [(s "Effect", VStr (s "Deny")); (s "NotAction", VStr (s "s3:*"))]])])])])%string.
+(* the same policy, the patterns written differently: reordered, repeated, other letter case, a doubled star, a list for a string *)
+Definition T2 : value :=
+  (VDict [(s "Properties", VDict [(s "PolicyDocument", VDict [(s "Statement", VList [
+     VDict [(s "Effect", VStr (s "Allow")); (s "Action", VList [VStr (s "iam:*"); VStr (s "s3:Get**"); VStr (s "iam:*")]);
+            (s "Resource", VStr (s "*"))];
+     VDict [(s "Effect", VStr (s "Deny")); (s "NotAction", VList [VStr (s "s3:*"); VStr (s "s3:*")])]])])])])%string.
+Definition P_STMT (j : nat) : path := [SMember 0; SMember 0; SMember 0; SElem j].
+Definition CAT7 : list str :=
+  [s "iam:PassRole"; s "s3:GetBucketAcl"; s "s3:GetObject"; s "s3:GetObjectAcl"; s "s3:ListBucket"; s "s3:PutObject";
+   s "sts:AssumeRole"]%string.
+
+(* hypotheses of C10_expanded_sound_complete / _origin / _canonical: an Action and a NotAction element three objects and
+   one array deep, before and after *)
+Example C10_ex_paths :
+  member_at (P_STMT 0) 1 T1 = Some (K_ACTION, VList [VStr (s "s3:Get*"); VStr (s "IAM:*")])%string /\
+  action_text (VList [VStr (s "s3:Get*"); VStr (s "IAM:*")])%string = Some [s "s3:Get*"; s "IAM:*"]%string /\
+  member_at (P_STMT 0) 1 (expand_tree CAT5 T1)
+    = Some (K_ACTION, vstrs [s "iam:PassRole"; s "s3:GetObject"; s "s3:GetObjectAcl"])%string /\
+  member_at (P_STMT 1) 1 T1 = Some (K_NOTACTION, VStr (s "s3:*"))%string /\
+  member_at (P_STMT 1) 1 (expand_tree CAT5 T1) = Some (K_NOTACTION, vstrs [s "iam:PassRole"])%string /\
+  member_at (P_STMT 0) 2 (expand_tree CAT5 T1) = Some (s "Resource", VStr (s "*"))%string /\
+  member_at (P_STMT 2) 0 (expand_tree CAT5 T1) = None.
+Proof. vm_compute. repeat split; reflexivity. Qed.
+
+Example C10_ex_skeleton :
+  skeleton T1 =
+  (VDict [(s "Properties", VDict [(s "PolicyDocument", VDict [(s "Statement", VList [
+     VDict [(s "Effect", VStr (s "Allow")); (s "Action", VNull); (s "Resource", VStr (s "*"))];
+     VDict [(s "Effect", VStr (s "Deny")); (s "NotAction", VNull)]])])])])%string /\
+  skeleton (expand_tree CAT5 T1) = skeleton T1 /\ expand_tree CAT5 T1 <> T1.
+Proof. vm_compute. repeat split; try reflexivity. discriminate. Qed.
+
+(* catalogue update: CAT5 is a part of CAT7, both well-formed; the Action element gains exactly the new entry it matches,
+   the NotAction element exactly the new entry it does not; restricted to CAT5 both are as before *)
+Example C10_ex_catalogue_update :
+  catalogue_ok CAT5 = true /\ catalogue_ok CAT7 = true /\ incl CAT5 CAT7 /\
+  expand CAT5 [s "s3:Get*"; s "IAM:*"]%string = [s "iam:PassRole"; s "s3:GetObject"; s "s3:GetObjectAcl"]%string /\
+  expand CAT7 [s "s3:Get*"; s "IAM:*"]%string
+    = [s "iam:PassRole"; s "s3:GetBucketAcl"; s "s3:GetObject"; s "s3:GetObjectAcl"]%string /\
+  expand_not CAT5 [s "s3:*"]%string = [s "iam:PassRole"]%string /\
+  expand_not CAT7 [s "s3:*"]%string = [s "iam:PassRole"; s "sts:AssumeRole"]%string /\
+  expand_tree CAT5 T1 = walk (restrict CAT5) (restrict CAT5) (expand_tree CAT7 T1) /\
+  expand_tree CAT5 T1 <> expand_tree CAT7 T1 /\
+  expand CAT7 (expand CAT5 [s "s3:Get*"; s "IAM:*"]%string) = expand CAT5 [s "s3:Get*"; s "IAM:*"]%string /\
+  expand_not CAT7 (expand_not CAT5 [s "s3:*"]%string)
+    = [s "s3:GetBucketAcl"; s "s3:GetObject"; s "s3:GetObjectAcl"; s "s3:ListBucket"; s "s3:PutObject"; s "sts:AssumeRole"]%string.
+Proof.
+  split; [vm_compute; reflexivity|]. split; [vm_compute; reflexivity|].
+  split; [apply sub_catalogue_incl; vm_compute; reflexivity|].
+  vm_compute. repeat split; try reflexivity. discriminate.
+Qed.
+
+(* the witness of C10_fixed_point_any_update_refuted spelled out: the new catalogue is rejected by the catalogue check,
+   and with it the already expanded element {"Action": ["s3:GetObject"]} grows on re-expansion *)
+Example C10_ex_case_variant_update :
+  let cat := [s "s3:GetObject"]%string in
+  let cat' := [s "s3:GetObject"; s "s3:getobject"]%string in
+  catalogue_ok cat = true /\ catalogue_ok cat' = false /\
+  expand_tree cat (VDict [(s "Action", VStr (s "s3:Get*"))])%string = VDict [(s "Action", VList [VStr (s "s3:GetObject")])]%string /\
+  expand_tree cat' (VDict [(s "Action", VList [VStr (s "s3:GetObject")])])%string
+    = VDict [(s "Action", VList [VStr (s "s3:GetObject"); VStr (s "s3:getobject")])]%string.
+Proof. vm_compute. repeat split; reflexivity. Qed.
+
+(* iteration: twice differs from once exactly in the NotAction element (now the plain expansion); three times = once *)
+Example C10_ex_iterated :
+  member_at (P_STMT 1) 1 (expand_tree CAT5 (expand_tree CAT5 T1))
+    = Some (K_NOTACTION, vstrs [s "s3:GetObject"; s "s3:GetObjectAcl"; s "s3:ListBucket"; s "s3:PutObject"])%string /\
+  member_at (P_STMT 0) 1 (expand_tree CAT5 (expand_tree CAT5 T1)) = member_at (P_STMT 0) 1 (expand_tree CAT5 T1) /\
+  expand_tree CAT5 (expand_tree CAT5 T1) <> expand_tree CAT5 T1 /\
+  expand_tree CAT5 (expand_tree CAT5 (expand_tree CAT5 T1)) = expand_tree CAT5 T1 /\
+  iterate 7 (expand_tree CAT5) T1 = expand_tree CAT5 T1 /\
+  iterate 8 (expand_tree CAT5) T1 = expand_tree CAT5 (expand_tree CAT5 T1).
+Proof. vm_compute. repeat split; try reflexivity. discriminate. Qed.
+
+(* hypotheses of C10_pattern_order_blind: T1 and T2 are related, and are walked to the same tree *)
+Example C10_ex_pattern_order_blind :
+  pats_equiv [s "s3:Get*"; s "IAM:*"]%string [s "iam:*"; s "s3:Get**"; s "iam:*"]%string /\
+  pat_rel T1 T2 /\ T1 <> T2 /\ expand_tree CAT5 T1 = expand_tree CAT5 T2.
+Proof.
+  assert (E1 : ci_equiv (s "s3:Get*"%string) (s "s3:Get**"%string))
+    by exact (ci_equiv_sym _ _ (ci_equiv_star_star (s "s3:Get"%string) [])).
+  assert (E2 : ci_equiv (s "IAM:*"%string) (s "iam:*"%string))
+    by exact (ci_equiv_sym _ _ (ci_equiv_case (s "IAM:*"%string))).
+  assert (HP : pats_equiv [s "s3:Get*"; s "IAM:*"]%string [s "iam:*"; s "s3:Get**"; s "iam:*"]%string).
+  { apply (pats_equiv_trans _ [s "s3:Get**"; s "iam:*"]%string).
+    - apply pats_equiv_spelling. constructor; [exact E1|]. constructor; [exact E2 | constructor].
+    - apply pats_equiv_same_members. intros p. cbn [In]. tauto. }
+  assert (HN : pats_equiv [s "s3:*"]%string [s "s3:*"; s "s3:*"]%string)
+    by exact (pats_equiv_sym _ _ (pats_equiv_dup [s "s3:*"]%string)).
+  split; [exact HP|]. split; [|split; [vm_compute; discriminate | vm_compute; reflexivity]].
+  unfold T1, T2.
+  apply PR_dict. constructor; [|constructor]. split; [reflexivity|]. left.
+  apply PR_dict. constructor; [|constructor]. split; [reflexivity|]. left.
+  apply PR_dict. constructor; [|constructor]. split; [reflexivity|]. left.
+  apply PR_list. constructor; [|constructor; [|constructor]].
+  - apply PR_dict. constructor; [split; [reflexivity | left; apply PR_same]|].
+    constructor; [|constructor; [split; [reflexivity | left; apply PR_same] | constructor]].
+    split; [reflexivity|]. right. split; [reflexivity|].
+    exists [s "s3:Get*"; s "IAM:*"]%string, [s "iam:*"; s "s3:Get**"; s "iam:*"]%string.
+    split; [reflexivity|]. split; [reflexivity | exact HP].
+  - apply PR_dict. constructor; [split; [reflexivity | left; apply PR_same]|]. constructor; [|constructor].
+    split; [reflexivity|]. right. split; [reflexivity|].
+    exists [s "s3:*"]%string, [s "s3:*"; s "s3:*"]%string. split; [reflexivity|]. split; [reflexivity | exact HN].
+Qed.
